@@ -5,6 +5,7 @@ import builtins as _bi
 import importlib
 import inspect
 import os
+import re
 import sys
 import time
 import traceback
@@ -66,6 +67,27 @@ class Contract:
                 self.raises.append((resolve_exception(n[len('raises_'):]), n, f))
         self.modifies = d.get('modifies')
         self.returns = d.get('returns')
+        # `returns` names the result at call sites.  Unless the contract says that this naming is the
+        # *definition* of an abstract spec function (returns_defines = True: "whatever this function computes is
+        # called f(args)"), the function itself is verified to return exactly that value (obligation `returns`).
+        self.returns_defines = bool(d.get('returns_defines', False))
+        # returns_proved_by = 'ensures_x': the equality is the proved clause ensures_x, which must contain the
+        # returns expression verbatim (checked textually here), so no second obligation is generated
+        # fresh_result = True: the result is an object allocated by the call itself (proved for the function as
+        # obligation `fresh-result`); at call sites it then gets a new concrete reference, distinct from everything
+        # the caller has seen, instead of an unknown one
+        self.fresh_result = bool(d.get('fresh_result', False))
+        self.returns_proved_by = d.get('returns_proved_by')
+        if self.returns_proved_by:
+            import ast as _ast, inspect as _inspect, textwrap as _tw
+
+            def _ret_expr(f):
+                tree = _ast.parse(_tw.dedent(_inspect.getsource(f)))
+                rets = [n for n in _ast.walk(tree) if isinstance(n, _ast.Return)]
+                return _ast.unparse(rets[-1].value)
+            ens = d.get(self.returns_proved_by)
+            if ens is None or _ret_expr(self.returns) not in _ret_expr(ens):
+                raise ValueError(f'{target}: returns expression is not contained in {self.returns_proved_by}')
         self.pure = bool(d.get('pure', False))
         self.assume_at_call = tuple(d.get('assume_at_call', ()))
         self.tier = d.get('tier', 'quick')
@@ -79,6 +101,17 @@ class Contract:
         self.timeout_ms = d.get('timeout_ms', 10000)
         self.path_limit = d.get('path_limit', 4000)
         self.setup = d.get('setup')          # optional symbolic set-up: fn(ip, args) run before requires
+        # loop<k>_invariant(params..., i, locals...) / loop<k>_modifies(params..., locals...): inductive invariant and
+        # frame of the k-th `for` statement (source order) of the function; `i` is the number of completed iterations
+        self.loops: Dict[int, Dict[str, Any]] = {}
+        for n, f in d.items():
+            m = re.match(r'loop(\d+)_(invariant\w*|modifies)$', n)
+            if m and callable(f):
+                ent = self.loops.setdefault(int(m.group(1)), {'invariant': [], 'modifies': None})
+                if m.group(2) == 'modifies':
+                    ent['modifies'] = f
+                else:
+                    ent['invariant'].append((n, f))
 
 
 def resolve_exception(name: str):
@@ -377,6 +410,10 @@ def apply_contract(ip: Interp, con: Contract, fn, args, kwargs, bound_cls) -> SV
             res = eval_value(ip, con.returns, locs)
         finally:
             ip.old_heap = saved
+    elif con.ret is not None and con.fresh_result and parse_type(con.ret)[0] == 'obj':
+        if con.pure:
+            st.nalloc += 1 << 20          # the callee's other allocations (A-ALLOC)
+        res = SV('ref', st.new_ref(parse_type(con.ret)[1]), cls=parse_type(con.ret)[1])
     elif con.ret is not None:
         res = fresh_result(ip, con)
     else:
@@ -396,6 +433,16 @@ def apply_contract(ip: Interp, con: Contract, fn, args, kwargs, bound_cls) -> SV
         finally:
             ip.old_heap = saved
     return res
+
+
+def _B_fresh(ip: Interp, v: SV):
+    if v.k == 'ref':
+        return v.e >= ip.st.alloc0
+    if v.k == 'val':
+        return z3.And(Val.is_r(v.e), Val.rv(v.e) >= ip.st.alloc0)
+    if v.k == 'pylist':
+        return z3.BoolVal(True) if v.py.href is None else v.py.href >= ip.st.alloc0
+    return z3.BoolVal(False)
 
 
 def fresh_result(ip: Interp, con: Contract) -> SV:
@@ -502,6 +549,145 @@ Interp.apply_contract = lambda self, con, fn, args, kwargs, bound_cls: apply_con
 
 
 # --------------------------------------------------------------------------------------------
+# statement loops with effects: verified by an inductive invariant given in the contract
+LOOP_BLOCK = 1 << 28       # references reserved for the objects allocated by all iterations of one loop
+
+
+def _loop_args(ip: Interp, fr, f, extra):
+    node = func_ast(f)
+    names = [a.arg for a in node.args.args]
+    params = ip.shared.get('top_params', {})
+    vals = {}
+    for n in names:
+        if n in extra:
+            vals[n] = extra[n]
+        elif n in params:
+            vals[n] = params[n]
+        else:
+            v = fr.lookup(n)
+            if v is None:
+                raise Unsupported(f'loop clause {f.__qualname__} names `{n}`, which is neither a parameter nor a bound local')
+            vals[n] = v
+    return vals
+
+
+def _havoc_everything(ip: Interp, allowed: List[Loc], limit):
+    """Every heap array becomes an unknown one that agrees with the current one on the objects that
+    existed at loop entry (refs < limit), except at the loop's `modifies` locations."""
+    st = ip.st
+    r = z3.Int('r!lh')
+    names = set(st.heap)
+    for cname, fields in ip.reg.fields.items():
+        for a in fields:
+            names.add('F:' + a)
+    for base in ('L_el', 'L_len', 'D_has', 'D_val', 'D_key', 'D_n'):
+        names.add(base)
+    for name in sorted(names):
+        cur = st.F(name[2:]) if name.startswith('F:') else getattr(st, name)
+        new = st.fresh('lh', cur.sort())
+        exc, extra = [], []
+        if name.startswith('F:'):
+            attr = name[2:]
+            exc = [loc_ref(ip, L.obj) for L in allowed if L.kind == 'field' and L.attr == attr]
+            for L in allowed:
+                if L.kind == 'each' and L.attr == attr:
+                    segs = L.segs
+                    if len(segs) != 1 or segs[0][0] != 'heap':
+                        raise Unsupported('loc_each over a non-heap list')
+                    sg = segs[0]
+                    ii = z3.Int('i!lh')
+                    extra.append(z3.Not(z3.Exists([ii], z3.And(0 <= ii, ii < sg[4], Val.rv(sg[3][ii]) == r))))
+        elif name in ('L_el', 'L_len'):
+            exc = [loc_ref(ip, L.obj) for L in allowed if L.kind == 'list']
+        else:
+            exc = [loc_ref(ip, L.obj) for L in allowed if L.kind == 'dict']
+        exc = [x for x in exc if x is not None]
+        st.fact(z3.ForAll([r], z3.Implies(z3.And(r < limit, *[r != x for x in exc], *extra), new[r] == cur[r]),
+                          patterns=[new[r]]))
+        if name in ('L_len', 'D_n'):
+            st.fact(z3.ForAll([r], new[r] >= 0, patterns=[new[r]]))
+        st.set_arr(name, new)
+
+
+def loop_by_invariant(ip: Interp, node, seg, fr, spec):
+    k, ent = spec
+    st = ip.st
+    if ent['modifies'] is None or not ent['invariant']:
+        raise Unsupported(f'loop {k}: the contract must give loop{k}_invariant and loop{k}_modifies')
+    n = ip.seg_length(seg)
+    # local lists the body appends to must live on the heap so that the invariant can speak about them
+    assigned, appended = E.loop_targets(node.body)
+    for name in sorted(appended):
+        v = fr.lookup(name)
+        if v is not None and v.k == 'pylist' and v.py.href is None:
+            ip.lower_list(v.py)
+    tnames = E.target_names(node.target)
+    for name in sorted(assigned - tnames):
+        if fr.lookup(name) is not None:
+            raise Unsupported(f'loop {k} rebinds the local `{name}` that is live across iterations')
+
+    def inv_goals(i_expr, tag):
+        extra = {'i': E.mk_int(i_expr)}
+        for (iname, f) in ent['invariant']:
+            try:
+                for (sname, pc2, g) in subclauses(ip, f, _loop_args(ip, fr, f, extra)):
+                    st.obligations.append((f'loop{k}.{tag}.{iname}{sname}', pc2, g))
+            except PyRaise as e:
+                st.obligations.append((f'loop{k}.{tag}.{iname}', list(st.pc), z3.BoolVal(False)))
+
+    def inv_assume(i_expr):
+        extra = {'i': E.mk_int(i_expr)}
+        for (iname, f) in ent['invariant']:
+            st.fact(eval_clause(ip, f, _loop_args(ip, fr, f, extra), 'assume'))
+
+    # 1. established
+    inv_goals(z3.IntVal(0), 'init')
+    # 2. the loop's frame, named in the state at loop entry
+    mnode = func_ast(ent['modifies'])
+    margs = _loop_args(ip, fr, ent['modifies'], {})
+    mfr = spec_frame(ent['modifies'], margs)
+    mfr.locals.setdefault('loc', const(loc))
+    ip.in_spec += 1
+    try:
+        v = ip.run_body(mnode.body, mfr)
+    finally:
+        ip.in_spec -= 1
+    items = v.py if v.k == 'tuple' else (v.py.items() if v.k == 'pylist' else None)
+    if items is None or any(x.k != 'loc' for x in items):
+        raise Unsupported(f'loop{k}_modifies must return a list of locations')
+    allowed = [x.py for x in items]
+    n0 = st.nalloc
+    limit = st.alloc0 + n0
+    which = ip.choose(2)
+    _havoc_everything(ip, allowed, limit)
+    st.nalloc = n0 + LOOP_BLOCK          # objects of earlier iterations live in [n0, n0 + LOOP_BLOCK)
+    if which == 0:
+        # 3. an arbitrary iteration: invariant(i) holds, run the body once, invariant(i+1) and the frame must hold
+        st.fresh_n += 1
+        i = z3.Int(f'it!{k}!{st.fresh_n}')
+        st.fact(z3.And(0 <= i, i < n))
+        inv_assume(i)
+        iter_heap = dict(st.heap)
+        ip.assign(node.target, ip.seg_element(seg, i), fr)
+        try:
+            ip.exec_block(node.body, fr)
+        except E.ContinueEx:
+            pass
+        # (break / return / raise leave through the normal channels: the state is a reachable one)
+        inv_goals(i + 1, 'preserved')
+        for aname, g in frame_goal(ip, iter_heap, dict(st.heap), allowed, n0, limit=limit):
+            st.obligations.append((f'loop{k}.frame.{aname}', list(st.pc), g))
+        raise E.LoopIterEnd()
+    # 4. after the loop: invariant(n)
+    st.nalloc = n0 + 2 * LOOP_BLOCK
+    inv_assume(n)
+    ip.exec_block(node.orelse, fr)
+
+
+Interp.loop_by_invariant = lambda self, s, seg, fr, spec: loop_by_invariant(self, s, seg, fr, spec)
+
+
+# --------------------------------------------------------------------------------------------
 # verification of one function against its own contract
 
 class Obligation:
@@ -542,12 +728,13 @@ def make_params(ip: Interp, con: Contract, fn) -> Dict[str, SV]:
 
 
 def frame_goal(ip: Interp, pre_heap: Dict[str, Any], post_heap: Dict[str, Any], allowed: List[Loc],
-               nalloc0: int) -> List[Tuple[str, Any]]:
-    """For every heap array that differs: forall old refs r not in `allowed`: post[r] == pre[r]."""
+               nalloc0: int, limit=None) -> List[Tuple[str, Any]]:
+    """For every heap array that differs: forall old refs r not in `allowed`: post[r] == pre[r].
+    `limit`: what counts as old (default: allocated before the call; for a loop: before the loop)."""
     st = ip.st
     goals = []
     r = z3.Int('r!f')
-    old = r < st.alloc0
+    old = r < (st.alloc0 if limit is None else limit)
     for name, post in post_heap.items():
         pre = pre_heap.get(name)
         if pre is None:
@@ -600,6 +787,13 @@ def verify_function(target: str, only: Optional[str] = None, timeout_ms: Optiona
         ip = Interp(reg, st, PathCtl(), shared)
         ip.top_target = target
         params = make_params(ip, con, fn)
+        shared['top_params'] = params
+        if con.loops:
+            fors = sorted((n.lineno, n.col_offset) for n in E.ast.walk(node) if isinstance(n, E.ast.For))
+            shared['loop_specs'] = {pos: (k, con.loops[k]) for k, pos in enumerate(fors) if k in con.loops}
+            missing = [k for k in con.loops if k >= len(fors)]
+            if missing:
+                raise Unsupported(f'contract names loops {missing} but the function has {len(fors)} for statements')
         if con.setup is not None:
             con.setup(ip, params)
         for name, f in con.requires:
@@ -650,6 +844,17 @@ def verify_function(target: str, only: Optional[str] = None, timeout_ms: Optiona
                 # (b) postconditions
                 l2 = dict(params)
                 l2['result'] = result
+                if con.fresh_result:
+                    fr_ = _B_fresh(sub, result)
+                    obligations.append(Obligation('fresh-result', list(sub.st.pc), fr_, pi))
+                if con.returns is not None and not con.returns_defines and not con.returns_proved_by:
+                    try:
+                        want = eval_value(sub, con.returns, params)
+                        obligations.append(Obligation('returns', list(sub.st.pc), sub.identical(result, want)
+                                                      if want.k in ('ref', 'none') else sub.equal(result, want), pi))
+                    except PyRaise as e:
+                        obligations.append(Obligation('returns', list(sub.st.pc), z3.BoolVal(False), pi,
+                                                      note=f'returns expression raises {e.exc_cls.__name__} ({e.where})'))
                 for name, f in con.ensures:
                     try:
                         pcs = subclauses(sub, f, l2)
@@ -678,6 +883,8 @@ def verify_function(target: str, only: Optional[str] = None, timeout_ms: Optiona
                 else:
                     obligations.append(Obligation(f'no-exception.{e.exc_cls.__name__}', list(sub.st.pc),
                                                   z3.BoolVal(False), pi, note=f'raised at {e.where}'))
+            elif out[0] == 'loopend':
+                pass        # arbitrary iteration of a loop with invariant: its obligations were recorded above
             else:
                 obligations.append(Obligation('engine.exit', [], None, pi, note=f'unexpected exit {out[0]}'))
         res.inlined = sorted(shared['inlined'] - {target})
@@ -688,7 +895,7 @@ def verify_function(target: str, only: Optional[str] = None, timeout_ms: Optiona
             if 'v' not in lemma_box:
                 lemma_box['v'] = congruence_lemmas(ip, shared, base_pc)
             return lemma_box['v']
-        discharge(res, obligations, timeout_ms or con.timeout_ms, only, lemmas_thunk, small_scope=bound is not None)
+        discharge(res, obligations, timeout_ms or con.timeout_ms, only, lemmas_thunk, small_scope=bound is not None, simp=make_peeler(ip))
     except Unsupported as u:
         res.unsupported = str(u)
     except Exception:
@@ -966,7 +1173,78 @@ def has_var(e) -> bool:
     return r
 
 
-def discharge(res: FnResult, obligations: List[Obligation], timeout_ms: int, only, lemmas, small_scope=False):
+def make_peeler(ip: Interp):
+    """Formula simplifier: a read `Store(..Store(A, i1, v1).., in, vn)[r]` skips the stores whose index is
+    provably another object than r (a reference allocated in this call vs. a pre-state object, or two different
+    allocation offsets) — the same rule as Interp.peel, applied to whole hypotheses and goals so that the solver
+    does not have to rediscover it under quantifiers."""
+    memo: Dict[int, Any] = {}
+    keep = []
+
+    def ground(e):
+        # no bound variable inside
+        stack, seen = [e], set()
+        while stack:
+            x = stack.pop()
+            if x.get_id() in seen:
+                continue
+            seen.add(x.get_id())
+            if z3.is_var(x):
+                return False
+            if z3.is_quantifier(x):
+                return False
+            stack.extend(x.children())
+        return True
+
+    def candidates(e, out, seen):
+        stack = [e]
+        while stack:
+            x = stack.pop()
+            i = x.get_id()
+            if i in seen:
+                continue
+            seen.add(i)
+            if z3.is_quantifier(x):
+                stack.append(x.body())
+                continue
+            if z3.is_app(x):
+                if x.decl().kind() == z3.Z3_OP_SELECT and z3.is_app(x.arg(0)) and \
+                        x.arg(0).decl().kind() == z3.Z3_OP_STORE:
+                    out.append(x)
+                stack.extend(x.children())
+
+    def simp(e):
+        i = e.get_id()
+        if i in memo:
+            return memo[i][1]
+        cur = e
+        for _ in range(4):
+            cands = []
+            candidates(cur, cands, set())
+            pairs = []
+            for c in cands:
+                r = c.arg(1)
+                if r.sort() != I or not ground(c):
+                    continue
+                new = ip.peel(c.arg(0), r)
+                if not new.eq(c):
+                    pairs.append((c, new))
+            if not pairs:
+                break
+            cur = z3.substitute(cur, *pairs)
+        memo[i] = (e, cur)
+        keep.append(cur)
+        return cur
+    return simp
+
+
+def discharge(res: FnResult, obligations: List[Obligation], timeout_ms: int, only, lemmas, small_scope=False,
+              simp=None):
+    if simp is not None:
+        for ob in obligations:
+            if ob.goal is not None:
+                ob.pc = [simp(c) for c in ob.pc]
+                ob.goal = simp(ob.goal)
     groups: Dict[str, List[Obligation]] = {}
     for ob in obligations:
         if only and only not in ob.name:
@@ -1043,6 +1321,8 @@ def discharge(res: FnResult, obligations: List[Obligation], timeout_ms: int, onl
             if verdict != 'refuted':
                 verdict = 'undecided'
                 detail = f'path {ob.path}: solver answered unknown ({s.reason_unknown()})' + (f' ({ob.note})' if ob.note else '')
+                if os.environ.get('PYVC_DEBUG'):
+                    print(f'--- open subgoal of {name} (path {ob.path}):\n{str(ob.goal)[:3000]}', file=sys.stderr)
                 if not small_scope:
                     break    # one open instance settles the group's verdict; do not burn time on the rest
         res.clauses[name] = {'verdict': verdict, 'instances': len(obs), 'detail': detail, 'cex': cex}
